@@ -1267,6 +1267,98 @@ def check_reload_world(scn, res):
     return probs, info
 
 
+# ------------------------------------------------------------------ waiters are served or refused within the configured connect_timeout
+# connect_timeout / idle_timeout / server_lifetime can each be set in [general], in the pool section and at the user; the most specific
+# level wins (pool.rs from_config).  Nine pairwise distinct values, so that a field read from the wrong level or the wrong setting
+# shows as a wrong time-to-refusal.  "long" flavour: idle/lifetime far above connect_timeout (a swap delays the refusal);
+# "short" flavour: idle/lifetime below connect_timeout (a swap refuses waiters early; and the settings themselves must not).
+TIMEOUT_VALUES = {"connect_timeout": {"g": 700, "p": 450, "u": 250},
+                  "long": {"idle_timeout": {"g": 5000, "p": 4000, "u": 3000}, "server_lifetime": {"g": 9000, "p": 8000, "u": 7000}},
+                  "short": {"idle_timeout": {"g": 190, "p": 160, "u": 130}, "server_lifetime": {"g": 200, "p": 170, "u": 140}}}
+PLACEMENTS = ("g", "gp", "gu", "gpu")       # where a setting is written: always in [general], optionally in the pool, optionally at the user
+
+
+def selected(vals, placement):
+    """the value the precedence rule user > pool > general selects"""
+    return vals["u"] if "u" in placement else (vals["p"] if "p" in placement else vals["g"])
+
+
+def timeout_world(flavour, pl_ct, pl_idle, pl_life):
+    vals = {"connect_timeout": TIMEOUT_VALUES["connect_timeout"], "idle_timeout": TIMEOUT_VALUES[flavour]["idle_timeout"],
+            "server_lifetime": TIMEOUT_VALUES[flavour]["server_lifetime"]}
+    place = {"connect_timeout": pl_ct, "idle_timeout": pl_idle, "server_lifetime": pl_life}
+    general, opts, user = {}, {"pool_mode": "transaction"}, {"pool_size": 1}
+    for k in vals:
+        general[k] = vals[k]["g"]
+        if "p" in place[k]:
+            opts[k] = vals[k]["p"]
+        if "u" in place[k]:
+            user[k] = vals[k]["u"]
+    toml = W.make_toml(general, {"p": {"opts": opts, "users": [user], "shards": [{"servers": [["b0", "primary"]]}]}})
+    T = selected(vals["connect_timeout"], pl_ct)
+    def conn(c):
+        return {"op": "connect", "c": c, "params": {"user": "u", "database": "p", "application_name": c}, "password": "pw"}
+    def q(c, sql, lab, to=3000):
+        return [{"op": "send", "c": c, "msgs": [{"t": "Q", "sql": sql, "label": lab}]}, {"op": "recv", "c": c, "until": "Z", "timeout_ms": to, "label": lab}]
+    steps = [conn("c0"), conn("c1")] + q("c0", "BEGIN /*hold*/", "hold")
+    steps += q("c1", "SELECT 1 /*refused*/", "refused", T + 1500)                       # nothing is released: told after connect_timeout
+    steps += [{"op": "spawn", "task": "w", "steps": q("c1", "SELECT 1 /*served*/", "served", T + 1500)},
+              {"op": "wait_waiting", "n": 1, "timeout_ms": 1000}, {"op": "sleep", "ms": int(T * 0.6)}]
+    steps += q("c0", "COMMIT /*release*/", "release") + [{"op": "join", "task": "w", "timeout_ms": T + 2000}]   # released within connect_timeout: served
+    steps += q("c1", "SELECT 1 /*after*/", "after") + [{"op": "sleep", "ms": 30}, {"op": "snapshot", "label": "end"}]
+    return {"backends": [{"name": "b0"}], "toml": toml, "workers": 2, "timing": True, "steps": steps,
+            "meta": {"flavour": flavour, "placement": place, "connect_timeout_selected": T,
+                     "idle_timeout_selected": selected(vals["idle_timeout"], pl_idle), "server_lifetime_selected": selected(vals["server_lifetime"], pl_life)}}
+
+
+def timeout_worlds(quick, rng):
+    out = []
+    for fl in ("long", "short"):
+        combos = [(a, b, c) for a in PLACEMENTS for b in PLACEMENTS for c in PLACEMENTS]
+        if quick:
+            # every connect_timeout placement x every idle_timeout placement; the server_lifetime placement rotates; plus a seeded few of the rest
+            base = [(a, b, PLACEMENTS[(i + j) % 4]) for i, a in enumerate(PLACEMENTS) for j, b in enumerate(PLACEMENTS)]
+            rest = [x for x in combos if x not in base]
+            combos = base + rng.sample(rest, 4)
+        out += [timeout_world(fl, *x) for x in combos]
+    return out
+
+
+def check_timeout_world(scn, res):
+    m = scn["meta"]
+    T = m["connect_timeout_selected"]
+    if "harness_error" in res or "start_error" in res:
+        return [("harness", str(res)[:300])], {}
+    sent, got = {}, {}
+    for e in res.get("events", []):
+        if e.get("ev") == "sent" and e.get("msgs") and e["msgs"][0].get("label"):
+            sent[e["msgs"][0]["label"]] = e.get("t_us", 0)
+        elif e.get("ev") == "recv" and e.get("label"):
+            got[e["label"]] = (classify(e["frames"], e["outcome"]), e.get("t_us", 0))
+    where = "connect_timeout %s, idle_timeout %s, server_lifetime %s (%s values)" % (m["placement"]["connect_timeout"], m["placement"]["idle_timeout"], m["placement"]["server_lifetime"], m["flavour"])
+    probs = []
+    if got.get("hold", ("",))[0] != "begin_ok":
+        return [("harness", "timeout world: the holder's BEGIN failed: %s" % (got.get("hold"),))], {}
+    cls, t1 = got.get("refused", ("missing", 0))
+    dt = (t1 - sent.get("refused", 0)) / 1000.0
+    info = {"T": T, "refused_after_ms": round(dt), "refused": cls, "served": got.get("served", ("missing",))[0]}
+    lo, hi = 0.85 * T, T + 600
+    if cls != "pool_error":
+        probs.append(("monitor-timeout", "settings at [%s]: a client beyond capacity got %s instead of the pool error within connect_timeout %d ms (+600): neither served nor told" % (where, cls, T)))
+    elif not (lo <= dt <= hi):
+        probs.append(("monitor-timeout", "settings at [%s]: the pool error came after %d ms; the precedence rule (user > pool > general) selects connect_timeout = %d ms "
+                                         "(idle_timeout %d, server_lifetime %d)" % (where, dt, T, m["idle_timeout_selected"], m["server_lifetime_selected"])))
+    if got.get("served", ("missing",))[0] != "row":
+        probs.append(("monitor-timeout", "settings at [%s]: a waiter whose connection was released after %d ms (connect_timeout %d ms) got %s instead of being served" % (where, int(T * 0.6), T, got.get("served", ("missing",))[0])))
+    if got.get("after", ("missing",))[0] != "row":
+        probs.append(("monitor-capacity", "settings at [%s]: the client is not usable after the refusal: %s" % (where, got.get("after", ("missing",))[0])))
+    for s_ in res.get("snapshots", []):
+        srv = s_["pools"][0]["servers"][0]
+        if srv["connections"] > 1 or srv["connections"] != srv["idle"] or s_["backends"]["b0"]["max_open_settled"] > 1:
+            probs.append(("monitor-bound", "settings at [%s]: end: connections %d idle %d, settled backend sessions %d (pool_size 1)" % (where, srv["connections"], srv["idle"], s_["backends"]["b0"]["max_open_settled"])))
+    return probs, info
+
+
 # ------------------------------------------------------------------ static anchors
 def anchors():
     """the structural facts of /repo the model was written from; returns list of problems"""
@@ -1502,6 +1594,28 @@ def check(run):
     elif bprobs:
         run.broken.append("ban world did not run as scripted: %s" % (bprobs[0][1],))
 
+    # waiters are served or refused within the configured connect_timeout, wherever the three timeouts are written
+    tw = timeout_worlds(quick, run.rng)
+    t0 = time.time()
+    tinfo, nbad = [], 0
+    for tscn, tres in zip(tw, W.run_scenarios(wire, tw, workers=16, timeout=90)):
+        tprobs, ti = check_timeout_world(tscn, tres)
+        evals += 4
+        distinct.add(("timeouts", tscn["meta"]["flavour"]) + tuple(sorted(tscn["meta"]["placement"].items())))
+        if ti:
+            tinfo.append((tscn["meta"]["flavour"], tscn["meta"]["placement"]["connect_timeout"], ti["T"], ti["refused_after_ms"]))
+        real = [x for x in tprobs if x[0] != "harness"]
+        if real:
+            nbad += 1
+            if nbad <= 3:
+                run.violation("counterexample", "; ".join("%s: %s" % x for x in real[:2]), {"timeout_world": True, "scenario": tscn, "problems": real}, found_input=True)
+        elif tprobs:
+            run.broken.append("timeout world did not run as scripted: %s" % (tprobs[0][1],))
+    run.log("timeout-placement worlds: %d in %.1fs, %d failing" % (len(tw), time.time() - t0, nbad))
+    over = [r - T for _, _, T, r in tinfo]
+    run.cov["timeout_worlds"] = {"worlds": len(tw), "failing": nbad, "refusal_minus_selected_connect_timeout_ms": {"min": min(over) if over else None, "max": max(over) if over else None},
+                                 "samples": tinfo[:6]}
+
     # the bound across PAUSE / RELOAD / RESUME
     rscns = [reload_world_scenario(True, 1), reload_world_scenario(False, 1), reload_world_scenario(True, 2)]
     rinfo = []
@@ -1572,6 +1686,10 @@ def replay(run, path):
     ok, blog, bins = vlib.cargo_build(["wire"])
     if not ok:
         print("harness does not build"); return 2
+    if r.get("timeout_world"):
+        probs, info = check_timeout_world(r["scenario"], W.run_scenario(bins["wire"], r["scenario"], timeout=90))
+        print("replay (timeout placement world):", probs, info)
+        return 1 if probs else 0
     if r.get("reload_world"):
         probs, info = check_reload_world(r["scenario"], W.run_scenario(bins["wire"], r["scenario"], timeout=90))
         print("replay (reload world):", probs, info)
